@@ -136,6 +136,32 @@ def ArgsAgree (G1 : TT S T) (G2 : TT U V) : Prop :=
   ∀ (ty : Ty) (s : S) (t : T) (u : U) (v : V) (P : Sym) (v1 : List (Ty × S) × T) (v2 : List (Ty × U) × V),
     G1.rule? (ty, (s, t)) P = some v1 → G2.rule? (ty, (u, v)) P = some v2 → v1.1.map (·.1) = v2.1.map (·.1)
 
+
+omit [DecidableEq U] [DecidableEq V] in
+theorem typed_rule (G : TT S T) (h : typedOK G = true) (nt : NT S T) (P : Sym) (val : List (Ty × S) × T)
+    (hr : G.rule? nt P = some val) : P.ty.endsWith nt.1 = some (val.1.map (·.1)) := by
+  unfold TT.rule? at hr
+  cases hl : AList.lookup nt G.rules with
+  | none => simp [hl] at hr
+  | some row =>
+    simp only [hl] at hr
+    unfold typedOK at h
+    rw [List.all_eq_true] at h
+    have h1 := h _ (AList.lookup_some_mem hl)
+    rw [List.all_eq_true] at h1
+    have h2 := h1 _ (AList.lookup_some_mem hr)
+    simpa using h2
+
+/-- typed tables agree on argument types -/
+theorem argsAgree_of_typed (G1 : TT S T) (G2 : TT U V) (h1 : typedOK G1 = true) (h2 : typedOK G2 = true) :
+    ArgsAgree G1 G2 := by
+  intro ty s t u v P v1 v2 hr1 hr2
+  have e1 := typed_rule G1 h1 _ P v1 hr1
+  have e2 := typed_rule G2 h2 _ P v2 hr2
+  simp only at e1 e2
+  rw [e1] at e2
+  exact Option.some.inj e2
+
 /-- pairing of the two outcomes -/
 def both (o1 : Option T) (o2 : Option V) : Option (T × V) :=
   match o1, o2 with
